@@ -35,24 +35,6 @@ def rule_window(fx, rep):
         ok = vals and all(v is not None and 1 <= v <= 16 for v in vals)
         rep.check(ok, 'RANGE', '%s:find_pippinger_window:range' % g, 'every return value is in 1..=16: %s' % sorted(set(vals)),
                   'the window heuristic can return %s (documented range 1..=16)' % sorted(set(v for v in vals if v is None or not 1 <= v <= 16), key=str), fx.fn(p)['span'], construct=p)
-        # the boundary table: thresholds strictly increasing, windows increasing by one
-        tab = None
-        for blk in b.blocks:
-            for s in blk['stmts']:
-                if s['k'] == 'assign' and s['rv']['k'] == 'agg' and 'array' in s['rv']['kind'] and len(s['rv']['ops']) >= 2:
-                    o = Origin(b)
-                    rows = []
-                    for op in s['rv']['ops']:
-                        t = strip(o.operand(op))
-                        if t[0] == 'agg' and len(t[2]) == 2 and all(x[0] == 'const' for x in t[2]):
-                            rows.append((t[2][0][1].get('v'), t[2][1][1].get('v')))
-                    if len(rows) == len(s['rv']['ops']):
-                        tab = rows
-        if tab is None:
-            c = [x for x in fx.fn(p).get('promoted', [])]
-        ok = tab is not None and all(tab[i][0] < tab[i + 1][0] for i in range(len(tab) - 1)) and all(1 <= w <= 16 for _, w in tab) and tab[0][0] <= 1
-        rep.check(ok, 'CONST', '%s:find_pippinger_window:table' % g, 'thresholds strictly increasing from 1, windows within 1..=16 (%d rows)' % (len(tab) if tab else 0),
-                  'boundary table %s is not monotone / leaves 1..=16' % (tab,), fx.fn(p)['span'], construct=p)
 
 
 def rule_wiring(fx, rep):
@@ -160,7 +142,7 @@ def rules(fx, rep):
 def main(tier, t0):
     return common.standard_main(
         PROP, tier, t0, rules, 'other',
-        'Decided: window heuristic returns only table entries, all in 1..=16, thresholds increasing (all paths); default entry = bucket method with '
+        'Decided: window heuristic returns only values in 1..=16 (all paths); default entry = bucket method with '
         'find_pippinger_window(min(#points,#scalars)); every component loop of the bucket and table-driven variants is bounded by the minimum length; bucket '
         'accumulations only under bucket_index > 0; the table-driven variant is proved equal to sum_j [k_j]P_j for list lengths (0,0),(1,1),(2,2),(3,3),(2,3),(3,1) and '
         'ALL scalar values by bit-provenance + linear-form abstract interpretation, given the table contract, and precomp_256 establishes that contract from any buffer. '
